@@ -122,6 +122,9 @@ def _one(args):
             # occur among the randomly chosen multi-orders): the library Taylor-expands it; the truth stays
             # the instance's own coefficient matrices
             inst["format"] = "sympy_matrix"
+            names = ["q", "a", "m", "z"][: inst["k"]]
+            rng.shuffle(names)
+            inst["symnames"] = names          # explicit `symbols=` in non-alphabetical order
         # every third sympy instance has SYMBOLIC unperturbed levels and a symbolic coupling constant
         if vtype == "sympy" and idx % len(VTYPES) == 5 and inst["d"] <= 4 and not any(
                 epair_[1] != 0 for epair_ in map(hermitian.epair, inst["E"])):
